@@ -62,6 +62,11 @@ func (u *Unit) buildQuery(o *Obl, wantModel bool) string {
 	rel := map[string]bool{}
 	symbols(goalText+" "+strings.Join(extra, " "), func(s string) { rel[s] = true })
 	included := make([]bool, len(all))
+	for i, f := range all {
+		if len(f.syms) == 0 {
+			included[i] = true // facts over prelude symbols only (e.g. kind of the nil tag)
+		}
+	}
 	// index: symbol -> facts
 	idx := map[string][]int{}
 	for i, f := range all {
